@@ -73,3 +73,23 @@ chk('C20',
     'Trusted: csv module reading of the bundled files (ref/tables.py); variance tolerance 2 ulp of std**2.',
     'complete enumeration of table rows and near-miss names on the real lookups; csv reference model',
     'DESIGN.md section 6 C20')
+chk('C05',
+    'Full grid Ei x Ef x L1 x L2 with per-argument unit choices x tof unit x dtypes; arrival times constructed at 50 digits; a boundary family around t0 incl. the exact float where NaN turns finite (located by bisection on the real kernel, neighbours scanned); direct and indirect kernels must return Ei-Ef within a conditioning-derived tolerance, NaN exactly below t0, never inf; convert() bitwise equal to the kernel.',
+    'Trusted: ref/inelastic.py on ref/hp.py; tolerance includes the measured error of scipp\'s own unit-conversion factor propagated through the conditioning of t - t0.',
+    'explicit enumeration of configuration grid and NaN boundary on the real kernels; 50-digit flight-time model',
+    'DESIGN.md section 6 C05')
+chk('C06',
+    'All binned layouts up to 4 bins with 0/1/3 events (incl. all-empty, gappy buffers), 1-d and 2-d bin grids, event coordinate dtypes f64/f32/int64, all elastic and inelastic targets, per-pixel geometry, with/without bin-edge coord, masks, unrelated coords, weights with variances, DataArray and Dataset: every event compared bitwise with the dense kernel on a replica; edges converted by the same function; data, order, membership, masks, coords preserved; input unchanged.',
+    'Trusted: dense kernels (judged by C01/C05); scipp compacts result buffers, so membership is compared as per-bin event lists.',
+    'explicit enumeration of binned layouts on the real convert(); differential against the dense kernel (bitwise)',
+    'DESIGN.md section 6 C06')
+chk('C11',
+    'Every program over {chop(list of choppers in any listed order), propagate_to, [distance]} up to 5 choppers / depth 4 on pulse rectangles incl. the 1.8 A band, with window menus built relative to the propagated frame (missing, containing, cutting slanted / constant-lambda edges, exactly touching, shared endpoints, unsorted): reported polygons vs exact-rational clipping in emission space (area per window combination, pointwise transmission on an interior lattice, vertices inside the source band), order independence, two-step = one-step, indexing, every subframe regular with bounds available.',
+    'Trusted: ref/clip.py (Fractions; cross-checked by brute-force vertex enumeration); 1e-9 don\'t-care band at edges; closed-window reading for exact ties.',
+    'explicit enumeration of chop/propagate programs on the real Frame/FrameSequence; exact-rational clipping model',
+    'DESIGN.md section 6 C11')
+chk('C18',
+    'Full product of axis directions over the sphere (incl. negative z, +-z, in-plane) x bases x radius/height 1e-3..1e3 x units for quadrature (membership, positive weights, volume, first/second moments, all three deterministic kinds) and for rays (inside/on axis/on wall/outside x parallel/radial/tangent/oblique, incl. directions 1 ulp off the axis) vs an independent 50-digit cylinder model; transmission in (0,1], =1 at mu=0, decreasing in mu, invariant under 24 cube rotations + generic rotations + translations and the other-end description.',
+    'Trusted: ref/cyl.py; weight sum / moments to the 8 digits of the tabulated disk rules; rays lying in a surface are don\'t-care; Monte-Carlo kind never used.',
+    'explicit enumeration of geometry grid on the real Cylinder / compute_transmission_map; 50-digit reference model',
+    'DESIGN.md section 6 C18')
